@@ -934,8 +934,10 @@ func vfCompareRestart(p *vfE4Phase, before *vfSnapshot, exps []*vfE4Expect, rest
 			sig := ""
 			for i := range p.eng.opLog {
 				op := &p.eng.opLog[i]
-				if op.Db == kid.Db && op.Key == kid.Key && op.Data != nil && op.Data.Type == protocol.LOCK_DATA_COMMAND_TYPE_PIPELINE && len(op.Data.Pipe) > 1 {
-					sig = "pipeline-with-more-than-one-value-operation"
+				if op.Db == kid.Db && op.Key == kid.Key && op.Data != nil && op.Data.Type == protocol.LOCK_DATA_COMMAND_TYPE_PIPELINE {
+					// the record of a request that carries a PIPELINE logs the pipeline itself (a
+					// relative operation), every other record logs the resulting value
+					sig = "pipeline-logged-as-an-operation"
 				}
 			}
 			if sig == "" {
